@@ -90,7 +90,9 @@ def run_dec(ctx, case):
         flat = np.concatenate([flat.real, flat.imag], axis=1)
     s = int(np.linalg.matrix_rank(flat, tol=1e-8 * max(1.0, np.abs(flat).max())))
     # a generic random family spans min(s, ambient) dimensions; s never exceeds the ambient dimension by construction
+    gens_before = gens.copy()
     basis, comp, char = nq.matrix_space.get_matrix_orthogonal_basis(gens, field=field)
+    ctx.close(gens, gens_before, 0, 'decomposition does not modify the generators')
     ctx.require(char == want_char, 'space_char identifies the structure class', f'{char} vs {want_char}')
     amb = ambient_dim(cls, m, n)
     ctx.require(basis.shape[0] == s, 'dimension of the basis = dimension of the span of the input', f'{basis.shape[0]} vs {s}')
